@@ -133,11 +133,6 @@ func (d *Driver) judgeC03as(prop string) {
 			if a1 != nil && class(a1) == "conflict" && !mixed {
 				deadline := a1.TRet
 				slack := d.stallIn(t.Inst, a1.TRet, a1.TRet+time.Second) + time.Millisecond
-				if p.Store.Dialect == "mock" {
-					// with the mock's "revision mismatch" text the library reads the record once more
-					// (to log who took over) before it demotes: one more operation latency
-					slack += p.Store.Req[1] + p.Store.Resp[1]
-				}
 				if !d.stopInvokedBefore(t.Inst, t.Gen, deadline+slack) && deadline+slack < d.endAt {
 					d.judgedInc(prop)
 					fallT := t.End
